@@ -123,6 +123,56 @@ type fakeClient struct {
 	earliest            int64
 	subs                chan cmtrpctypes.ResultEvent
 	calls               map[string]int
+
+	// transient failures of the node (one service life): Status / Subscribe answer with an error; for a height the
+	// successive Block(h) / BlockResults(h) calls answer with an error where the plan says so (calls beyond the plan succeed)
+	failStatus, failSubscribe bool
+	plan                      map[int64]*heightPlan
+	served                    []servedFail // the failures that were actually served, in order
+}
+
+type heightPlan struct {
+	Block   []bool `json:"block_calls_fail"`
+	Results []bool `json:"block_results_calls_fail"`
+}
+
+type servedFail struct {
+	call string
+	h    int64
+}
+
+var errNodeBusy = fmt.Errorf("verif: node client failed transiently")
+
+// nextFails consumes the next planned outcome of `call` at height h.
+func (f *fakeClient) nextFails(call string, height *int64) bool {
+	if height == nil {
+		return false
+	}
+	f.mu.Lock()
+	defer f.mu.Unlock()
+	hp := f.plan[*height]
+	if hp == nil {
+		return false
+	}
+	q := &hp.Block
+	if call == "BlockResults" {
+		q = &hp.Results
+	}
+	if len(*q) == 0 {
+		return false
+	}
+	fail := (*q)[0]
+	*q = (*q)[1:]
+	if fail {
+		f.served = append(f.served, servedFail{call, *height})
+	}
+	return fail
+}
+
+func (f *fakeClient) servedFails() []servedFail {
+	f.mu.Lock()
+	defer f.mu.Unlock()
+	return append([]servedFail{}, f.served...)
 }
 
 func (f *fakeClient) count(k string) {
@@ -144,6 +194,10 @@ func (f *fakeClient) Status(context.Context) (*cmtrpctypes.ResultStatus, error) 
 	f.count("Status")
 	f.mu.Lock()
 	defer f.mu.Unlock()
+	if f.failStatus {
+		f.served = append(f.served, servedFail{"Status", 0})
+		return nil, errNodeBusy
+	}
 	e := f.earliest
 	if e == 0 {
 		e = 1
@@ -164,6 +218,9 @@ func (f *fakeClient) blockAt(height *int64) (*blk, error) {
 
 func (f *fakeClient) Block(_ context.Context, height *int64) (*cmtrpctypes.ResultBlock, error) {
 	f.count("Block")
+	if f.nextFails("Block", height) {
+		return nil, errNodeBusy
+	}
 	b, err := f.blockAt(height)
 	if err != nil {
 		return nil, err
@@ -188,6 +245,9 @@ func (f *fakeClient) BlockByHash(_ context.Context, hash []byte) (*cmtrpctypes.R
 
 func (f *fakeClient) BlockResults(_ context.Context, height *int64) (*cmtrpctypes.ResultBlockResults, error) {
 	f.count("BlockResults")
+	if f.nextFails("BlockResults", height) {
+		return nil, errNodeBusy
+	}
 	b, err := f.blockAt(height)
 	if err != nil {
 		return nil, err
@@ -234,6 +294,10 @@ func (f *fakeClient) Subscribe(_ context.Context, _ string, _ string, _ ...int) 
 	f.count("Subscribe")
 	f.mu.Lock()
 	defer f.mu.Unlock()
+	if f.failSubscribe {
+		f.served = append(f.served, servedFail{"Subscribe", 0})
+		return nil, errNodeBusy
+	}
 	f.subs = make(chan cmtrpctypes.ResultEvent, 64)
 	return f.subs, nil
 }
